@@ -178,9 +178,31 @@ Proof. split; reflexivity. Qed.
 Lemma is_file_at_nodes w w' a : fs_look a w' = fs_look a w -> is_file_at w' a = is_file_at w a.
 Proof. unfold is_file_at. intros ->. reflexivity. Qed.
 
-Theorem fs_lim_satisfies_contract (limit : Z) :
-  fs_contract (fs_runtime_lim limit) fs_key fs_look fs_fd_key fs_tmpdir limit.
+(* what one write of the model transfers: a prefix of the buffer, at least one byte of a
+   non-empty buffer when the per-call limit is positive *)
+Definition sent_of (limit : Z) (c : bytes) : bytes :=
+  if zlen c <=? limit then c else btake (Z.to_N limit) c.
+
+Lemma sent_of_prefix limit c : btake (Z.to_N (zlen (sent_of limit c))) c = sent_of limit c.
 Proof.
+  unfold sent_of. destruct (zlen c <=? limit) eqn:E.
+  - apply btake_all. unfold zlen. lia.
+  - apply Z.leb_gt in E. unfold zlen in *. rewrite blen_btake.
+    f_equal. lia.
+Qed.
+
+Lemma sent_of_range limit c : 0 < limit -> c <> [] -> 1 <= zlen (sent_of limit c) <= zlen c.
+Proof.
+  intros Hl Hne. assert (Hc : 1 <= zlen c).
+  { pose proof (zlen_nonneg c). destruct (Z.eq_dec (zlen c) 0) as [Hz|Hz]; [apply zlen_nil_iff in Hz; contradiction|lia]. }
+  unfold sent_of. destruct (zlen c <=? limit) eqn:E; [lia|].
+  apply Z.leb_gt in E. unfold zlen in *. rewrite blen_btake. lia.
+Qed.
+
+Theorem fs_lim_satisfies_contract (limit : Z) : 0 < limit ->
+  fs_contract (fs_runtime_lim limit) fs_key fs_look fs_fd_key fs_tmpdir.
+Proof.
+  intros Hlimit.
   split; cbn [rt_isdir rt_makedirs rt_unlink rt_mkstemp rt_write rt_close rt_open_rb fs_runtime_lim].
   - (* isdir_look *)
     intros p w. unfold fs_isdir. destruct (fs_look (fs_key p) w) as [[|c]|]; split; congruence.
@@ -255,16 +277,20 @@ Proof.
     + intros k' Hne. destruct k' as [|y k']; [reflexivity|].
       rewrite !look_cons. cbn [fs_nodes assoc_key]. rewrite (key_eqb_neq _ _ Hne). reflexivity.
     + exists (fresh_tag w). subst name dstr. reflexivity.
-  - (* write_ok *)
-    intros fd k c w Hfd Hempty Hlen. unfold fs_write_lim. rewrite Hfd, Hempty.
-    replace (zlen c <=? limit) with true by (symmetry; apply Z.leb_le; exact Hlen). cbv zeta.
-    eexists. split; [reflexivity|].
-    destruct k as [|x k]; [discriminate Hempty|].
+  - (* write_progress *)
+    intros fd c w w' n. unfold fs_write_lim. fold (sent_of limit c).
+    destruct (fs_fd_key fd w) as [k|]; [|intros Heq; discriminate].
+    destruct (fs_look k w) as [[|old]|]; intros Heq; try discriminate.
+    injection Heq as _ <-. apply sent_of_range. exact Hlimit.
+  - (* write_appends *)
+    intros fd k c old w Hfd Hold Hne. unfold fs_write_lim. fold (sent_of limit c). rewrite Hfd, Hold.
+    eexists. eexists. split; [reflexivity|].
+    destruct k as [|x k]; [discriminate Hold|].
     split; [|split].
-    + rewrite look_cons. cbn [fs_nodes assoc_key app]. rewrite key_eqb_refl. reflexivity.
-    + intros k' Hne. destruct k' as [|y k']; [reflexivity|].
-      rewrite !look_cons. cbn [fs_nodes assoc_key]. rewrite (key_eqb_neq _ _ Hne).
-      apply assoc_remove_other. exact Hne.
+    + rewrite look_cons. cbn [fs_nodes assoc_key]. rewrite key_eqb_refl, sent_of_prefix. reflexivity.
+    + intros k' Hk'. destruct k' as [|y k']; [reflexivity|].
+      rewrite !look_cons. cbn [fs_nodes assoc_key]. rewrite (key_eqb_neq _ _ Hk').
+      apply assoc_remove_other. exact Hk'.
     + exact Hfd.
   - (* close_ok *)
     intros fd k w Hfd. unfold fs_close. rewrite Hfd. eexists. split; [reflexivity|].
@@ -274,17 +300,17 @@ Proof.
     destruct (fs_look (fs_key p) w) as [[|c0]|]; split; intros Heq; try discriminate; congruence.
 Qed.
 
-Theorem fs_satisfies_contract : fs_contract fs_runtime fs_key fs_look fs_fd_key fs_tmpdir max_rw_count.
-Proof. exact (fs_lim_satisfies_contract max_rw_count). Qed.
+Theorem fs_satisfies_contract : fs_contract fs_runtime fs_key fs_look fs_fd_key fs_tmpdir.
+Proof. apply (fs_lim_satisfies_contract max_rw_count). reflexivity. Qed.
 
 (* ---------- consequences for the validated model (no premises left) ---------- *)
 Theorem fs_ensure_tree_idempotent path mode w w' :
   ensure_tree fs_runtime path mode w = (w', OOk tt) -> ensure_tree fs_runtime path mode w' = (w', OOk tt).
-Proof. exact (ensure_tree_idempotent fs_runtime fs_key fs_look fs_fd_key fs_tmpdir max_rw_count fs_satisfies_contract path mode w w'). Qed.
+Proof. exact (ensure_tree_idempotent fs_runtime fs_key fs_look fs_fd_key fs_tmpdir fs_satisfies_contract path mode w w'). Qed.
 
 Theorem fs_delete_if_exists_idempotent path w w' :
   delete_if_exists path fs_unlink w = (w', OOk tt) -> delete_if_exists path fs_unlink w' = (w', OOk tt).
-Proof. exact (delete_if_exists_idempotent fs_runtime fs_key fs_look fs_fd_key fs_tmpdir max_rw_count fs_satisfies_contract path w w'). Qed.
+Proof. exact (delete_if_exists_idempotent fs_runtime fs_key fs_look fs_fd_key fs_tmpdir fs_satisfies_contract path w w'). Qed.
 
 (* ---------- concrete instances (non-vacuity of the hypotheses of the main theorems) ---------- *)
 Definition ex_world : fsw :=
@@ -340,29 +366,23 @@ Proof.
   destruct (e =? errno_EEXIST); destruct (e =? errno_ENOENT); repeat split; reflexivity.
 Qed.
 
-(* ---------- the unconditional statement about write_to_tempfile is false ----------
-   write_to_tempfile calls os.write once and ignores the number of bytes it reports.  A
-   runtime whose write(2) transfers at most [wlimit] bytes per call (every Linux: wlimit =
-   0x7ffff000) satisfies the whole contract, yet for a longer content the new file holds only
-   a prefix.  Witness: the file-system model with limit 3 and a 5-byte content (replayed on
-   the implementation with the real limit: findings/C20-W1.json). *)
-Definition write_to_tempfile_full_statement : Prop :=
-  forall (W H K : Type) (rt : runtime W H) (key : bytes -> K) (look : K -> W -> option node)
-         (fd_key : Z -> W -> option K) (tmpdir : bytes) (wlimit : Z),
-    fs_contract rt key look fd_key tmpdir wlimit ->
-    forall content path suffix prefix w w' name,
-      write_to_tempfile rt content path suffix prefix w = (w', OOk name) ->
-      look (key name) w' = Some (NFile content).
-
-Theorem write_to_tempfile_full_refuted : ~ write_to_tempfile_full_statement.
+(* ---------- short writes (the repaired defect C20-W1) ----------
+   Whatever the positive per-call limit of write(2), the loop stores the whole content.
+   Instance: at most 3 bytes per write, a 5-byte content (before the repair — one os.write
+   whose return value was ignored — the file held "dat"). *)
+Theorem fs_write_to_tempfile_any_limit (limit : Z) : 0 < limit ->
+  forall content path suffix prefix w w' name,
+    write_to_tempfile (fs_runtime_lim limit) content path suffix prefix w = (w', OOk name) ->
+    fs_look (fs_key name) w = None /\ fs_look (fs_key name) w' = Some (NFile content).
 Proof.
-  intros Hfull.
-  pose (res := write_to_tempfile (fs_runtime_lim 3) (lit "data!") None [] (lit "tmp") ex_world).
-  assert (E : res = (fst res, OOk (match snd res with OOk n => n | _ => [] end))) by (vm_compute; reflexivity).
-  specialize (Hfull fsw cat_hash fskey (fs_runtime_lim 3) fs_key fs_look fs_fd_key fs_tmpdir 3
-                    (fs_lim_satisfies_contract 3) (lit "data!") None [] (lit "tmp") ex_world _ _ E).
-  vm_compute in Hfull. discriminate Hfull.
+  intros Hl content path suffix prefix w w' name Hrun.
+  destruct (write_to_tempfile_spec (fs_runtime_lim limit) fs_key fs_look fs_fd_key fs_tmpdir
+              (fs_lim_satisfies_contract limit Hl) content path suffix prefix w w' name Hrun) as [Hfresh [Hcontent _]].
+  split; assumption.
 Qed.
 
-(* decidable zone on the input: the content does not fit one write(2) *)
-Definition zone_write_limit (content : bytes) : bool := max_rw_count <? zlen content.
+Example ex_short_writes :
+  exists w' name,
+    write_to_tempfile (fs_runtime_lim 3) (lit "data!") None [] (lit "tmp") ex_world = (w', OOk name) /\
+    fs_look (fs_key name) w' = Some (NFile (lit "data!")).
+Proof. eexists. eexists. split; vm_compute; reflexivity. Qed.
